@@ -135,6 +135,26 @@ def build_index(w):
     w.contract(OBJS, 'ObjectIndexBase.keys', params={'self': 'Coll', 'schema': 'Sch'}, returns='Seq[Key]', requires=['KI(self, CLSOF(self)._key, schema)'], modifies=['Coll._keys'],
         ensures=['KIS(self, CLSOF(self)._key, schema)', 'result == some(self._keys)', 'self._ids == old(self._ids)', 'implies(not is_none(old(self._keys)), self._keys == old(self._keys))'],
         hints={'ext_funcs': XT})
+    # lookups through the index: by the member's key in `schema` (given KI: by its current name)
+    KEYJ = 'KEY(CLSOF(self)._key, schema, OBJ(schema, self._ids[%s]))'
+    w.ext_methods['Coll.keys'] = dict(params={'schema': 'Sch'}, returns='Seq[Key]', requires=['KI(self, CLSOF(self)._key, schema)'], modifies=['Coll._keys'],
+                                      ensures=['KIS(self, CLSOF(self)._key, schema)', 'result == some(self._keys)', 'self._ids == old(self._ids)'])      # (clauses of the verified ObjectIndexBase.keys)
+    w.contract(OBJS, 'ObjectIndexBase.items', params={'self': 'Coll', 'schema': 'Sch'}, returns='Seq[Tuple[Key,IObj]]', requires=['KI(self, CLSOF(self)._key, schema)'], modifies=['Coll._keys'],
+        ensures=['len(result) == len(self._ids)', 'forall(0, len(result), lambda j: result[j][0] == %s and result[j][1] == OBJ(schema, self._ids[j]))' % (KEYJ % 'j')],
+        loops={0: dict(fingerprint='for (key, item_id) in zip(self.keys(schema), self._ids)', index='i', seq='its', invariant=[
+               'len(result) == i', 'KIS(self, CLSOF(self)._key, schema)', 'self._ids == old(self._ids)',
+               'forall(0, i, lambda j: result[j][0] == %s and result[j][1] == OBJ(schema, self._ids[j]))' % (KEYJ % 'j')])},
+        hints={'var_types': {'result': 'Seq[Tuple[Key,IObj]]'}, 'ext_funcs': XT})
+    w.opaque_exprs['NoDefault'] = 'IObj'      # the `no default given` sentinel: one fixed object
+    w.contract(OBJS, 'ObjectIndexBase.get', params={'self': 'Coll', 'schema': 'Sch', 'name': 'Key', 'default': 'Opt[IObj]'}, returns='Opt[IObj]',
+        requires=['KI(self, CLSOF(self)._key, schema)'], modifies=['Coll._keys'],
+        ensures=[# found: the FIRST member filed under that key; not found: the default
+                 'implies(exists(0, len(self._ids), lambda j: %s == name), exists(0, len(self._ids), lambda j: %s == name and result == OBJ(schema, self._ids[j]) and forall(0, j, lambda k: %s != name)))' % (KEYJ % 'j', KEYJ % 'j', KEYJ % 'k'),
+                 'implies(not exists(0, len(self._ids), lambda j: %s == name), result == default and (is_none(default) or some(default) != NoDefault))' % (KEYJ % 'j')],
+        raises={'KeyError': dict(ensures=['not exists(0, len(self._ids), lambda j: %s == name)' % (KEYJ % 'j')])},
+        loops={0: dict(fingerprint='for (key, item_id) in zip(self.keys(schema), self._ids)', index='i', seq='its', invariant=[
+               'KIS(self, CLSOF(self)._key, schema)', 'self._ids == old(self._ids)', 'forall(0, i, lambda k: %s != name)' % (KEYJ % 'k')])},
+        hints={'ext_funcs': XT})
     CREATE = dict(returns='Coll', modifies=['$alloc', 'Coll._ids', 'Coll._keys'], raises={'ObjectCollectionDuplicateNameError': {}, 'TypeError': {}},
         ensures=['KIS(result, cls._key, schema)', 'not old(allocated(result))', FRAME])
     ABS = lambda ids: {'coll = cast(ObjectIndexBase[Key_T, Object_T], super().create(schema, data, _keys=keys, **kwargs))':
